@@ -273,7 +273,7 @@ func VerifC18Race() {
 	prod, _ := vfProc(n, 2000, "", gen.ProcessStateRunning, 0)
 	cons, _ := vfProc(n, 2001, "", gen.ProcessStateRunning, 0)
 	lib.VerifGuarded(n.targetManager)
-	token, err := prod.RegisterEvent("ev", gen.EventOptions{Buffer: 2})
+	token, err := prod.RegisterEvent("ev", gen.EventOptions{Buffer: lib.VerifParam("buffer", 1)})
 	lib.VerifAssert(err == nil, "event registered")
 	ev := gen.Event{Name: "ev", Node: n.name}
 	delivered := 0 // the publication was put into the subscriber's mailbox
